@@ -641,6 +641,18 @@ static int restore_interior_string (char **val, svalue_t * sv) {
  * unbounded 'expo *= 10' overflows the int on a damaged save file */
 #define MAX_SAVE_EXPONENT 100000
 
+/* f * 10^-expo.  pow (10.0, -expo) alone is 0 beyond 1e-323 and subnormal (imprecise) beyond 1e-308,
+ * which turned every subnormal float into 0 or garbage: scale in two steps there. */
+#define SCALE_STEP_EXPONENT 300
+static double scale_down (double f, int expo) {
+  if (expo > SCALE_STEP_EXPONENT)
+    {
+      f *= pow (10.0, -SCALE_STEP_EXPONENT);
+      expo -= SCALE_STEP_EXPONENT;
+    }
+  return f * pow (10.0, -expo);
+}
+
 static int parse_numeric (char **cpp, char c, svalue_t * dest) {
   char *cp = *cpp;
   uint64_t res; /* magnitude: unsigned, so that every int64 (INT64_MIN included) is restored and long digit runs wrap */
@@ -698,7 +710,7 @@ static int parse_numeric (char **cpp, char c, svalue_t * dest) {
                   if (expo < MAX_SAVE_EXPONENT)
                     expo = expo * 10 + (c - '0');
                 }
-              f1 *= pow (10.0, -expo);
+              f1 = scale_down (f1, expo);
             }
           else
             return 0;
@@ -730,7 +742,7 @@ static int parse_numeric (char **cpp, char c, svalue_t * dest) {
               if (expo < MAX_SAVE_EXPONENT)
                 expo = expo * 10 + (c - '0');
             }
-          f1 = (double)res * pow (10.0, -expo);
+          f1 = scale_down ((double)res, expo);
         }
       else
         return 0;
